@@ -82,7 +82,12 @@ class StubContext:
         return self.made
 
 
-def close(path: str, Kmax: int = 8, susp: int = 1, two_cancels: bool = False):
+def close(path: str, Kmax: int = 8, susp: int = 1, two_cancels: bool = False, busy: bool = False, exclude: list = ()):
+    """busy=True (paths serverapi / aclient, the objects documented as not requiring task synchronization): another task is inside
+    send_packet() - the peer does not read for a solver-chosen number of iterations - when the close starts, so the close first has
+    to wait for the send lock.  exclude=["close_lockwait"]: skip the schedules covered by the open known findings F-C14-lockwait-*
+    (the close task is cancelled while it is still waiting for that lock)."""
+
     def scenario(S):
         with loop_context() as loop:
             be = backend()
@@ -171,7 +176,15 @@ def close(path: str, Kmax: int = 8, susp: int = 1, two_cancels: bool = False):
             else:
                 raise ValueError(path)
 
+            sender = None
+            if busy:
+                blocked_for = S.pick([1, 3, 40], "peer_stalls_for")
+                trs[0].send_suspensions = lambda: blocked_for
+                sender = loop.create_task(obj.send_packet(b"x"))
+                loop.step()
+                loop.step()  # the sender now holds the send lock and is suspended in the transport
             st = {"result": None}
+            lockwait_cancel = False
 
             async def run():
                 try:
@@ -187,6 +200,10 @@ def close(path: str, Kmax: int = 8, susp: int = 1, two_cancels: bool = False):
             for i in range(Kmax + 1):
                 if (i == k or i == k2) and not task.done():
                     cancelled_running = True
+                    if sender is not None and trs[0].close_calls == 0:  # still acquiring the send lock (held by, or just handed over from, the sender)
+                        lockwait_cancel = True
+                        if "close_lockwait" in exclude:
+                            S.assume(False)
                     task.cancel()
                 if expire and i == 2:
                     loop.advance(6)
@@ -199,6 +216,16 @@ def close(path: str, Kmax: int = 8, susp: int = 1, two_cancels: bool = False):
                 if task.done():
                     break
                 loop.step()
+            if sender is not None:
+                for _ in range(50):
+                    if sender.done():
+                        break
+                    loop.step()
+                if not sender.done():
+                    sender.cancel()
+                    loop.run_until_idle(30)
+                if not sender.cancelled():
+                    sender.exception()
             ok = task.done()
             problems = []
             if not task.done():
@@ -232,6 +259,8 @@ def close(path: str, Kmax: int = 8, susp: int = 1, two_cancels: bool = False):
                 tags.append("cancelled-while-closing")
             if any(t.close_error is not None for t in trs):
                 tags.append("wrapped-close-raises")
+            if lockwait_cancel:
+                tags.append("cancelled-while-waiting-for-the-send-lock")
             return Outcome(ok=ok, skeleton=(st["result"], [t.close_calls for t in trs]), tags=tuple(tags), detail={"problems": problems, "result": st["result"], "close_calls": [t.close_calls for t in trs], "cancel_at": k})
 
     return scenario
@@ -246,4 +275,7 @@ def shards(tier: str):
             out.append({"name": f"close/{path}/s{susp}", "scenario": "props.c14:close", "params": dict(path=path, Kmax=8 if quick else 12, susp=susp), "budget": B, "cost": 100, "per_path_timeout": 30})
         # two cancellations (the second one lands while the first is being handled)
         out.append({"name": f"close2/{path}", "scenario": "props.c14:close", "params": dict(path=path, Kmax=6 if quick else 10, susp=2, two_cancels=True), "budget": B, "cost": 300, "per_path_timeout": 30})
+    for path in ("serverapi", "aclient"):
+        # a concurrent sender holds the send lock (peer not reading) when the close starts
+        out.append({"name": f"close-busy/{path}", "scenario": "props.c14:close", "params": dict(path=path, Kmax=8 if quick else 12, susp=1, busy=True), "budget": B, "cost": 200, "per_path_timeout": 30, "accepts_exclude": True})
     return out
